@@ -34,3 +34,22 @@ Definition fd_example_reassembly_ok : bool :=
       end
   | [] => false
   end.
+
+(* a packet-type link setup frame (TYPE = 0x0002: packet, raw data), then a packet frame without and one with the EOF bit:
+   observations (BASIC, OK, [LSF]), (BASIC, PACKET_INCOMPLETE, [BASIC]), (LSF, OK, [BASIC]) *)
+Definition ex_packet_lsf : list N :=
+  let body := spec_address ex_dst ++ spec_address ex_src ++ [0; 2]%N ++ repeat 0%N 14 in
+  body ++ be_bytes 2 (crc30 body).
+Definition ex_packet_history : list (sync * list Z * bool) :=
+  [ (SLsf, soft7 (spec_lsf_frame ex_packet_lsf), true);
+    (SPacket, soft7 (spec_packet_frame (map N.of_nat (seq 0 25)) false 0), true);
+    (SPacket, soft7 (spec_packet_frame (map N.of_nat (seq 100 25)) true 25), true) ].
+Definition fd_example_packet_ok : bool :=
+  match fst (fd_run fd_init ex_packet_history) with
+  | [ (MBasic, ROk, Some 0%Z, [cb0]); (MBasic, RPacketIncomplete, Some 0%Z, [cb1]); (MLsf, ROk, Some 0%Z, [cb2]) ] =>
+      eq_listN (cb_bytes cb0) ex_packet_lsf &&
+      match cb_type cb0, cb_type cb1, cb_type cb2 with FLsf, FBasic, FBasic => true | _, _, _ => false end &&
+      eq_listN (firstn 25 (cb_bytes cb1)) (map N.of_nat (seq 0 25)) && N.eqb (N.land (nth 25 (cb_bytes cb1) 0%N) 128) 0 &&
+      eq_listN (firstn 25 (cb_bytes cb2)) (map N.of_nat (seq 100 25))
+  | _ => false
+  end.
